@@ -49,6 +49,8 @@ pub struct Ctx {
     pub shard: usize,
     pub nshards: usize,
     pub tool_mode: bool,
+    /// sub-selection of the workload (e.g. `light`: reduced configuration table)
+    pub sub: String,
     pub verbose: bool,
     /// only run the case with this (family, cfg, ordinal)
     pub only: Option<(String, String, u64)>,
@@ -62,6 +64,8 @@ pub struct Ctx {
     pub family: String,
     pub max_viols: usize,
     pub sample_every: u64,
+    /// breadcrumb file: the case being executed, rewritten before every case
+    pub crumb: Option<std::fs::File>,
 }
 
 impl Ctx {
@@ -90,7 +94,22 @@ impl Ctx {
         if self.viols.len() >= self.max_viols {
             return false;
         }
-        (o as usize) % self.nshards == self.shard
+        let mine = (o as usize) % self.nshards == self.shard;
+        if mine {
+            self.breadcrumb(&cfg.name, o);
+        }
+        mine
+    }
+    pub fn breadcrumb(&mut self, cfg: &str, ordinal: u64) {
+        if let Some(f) = &self.crumb {
+            use std::os::unix::fs::FileExt;
+            let mut line = format!("{}|{}|{}", self.family, cfg, ordinal);
+            while line.len() < 119 {
+                line.push(' ');
+            }
+            line.push('\n');
+            let _ = f.write_at(line.as_bytes(), 0);
+        }
     }
     pub fn wants_cfg(&self, cfg: &CfgEntry) -> bool {
         if let Some((_, c, _)) = &self.only {
